@@ -69,6 +69,7 @@ fn main() {
         ("hitobj", "record") => hitobj::record(&args, &mut s),
         ("hitobj", "c06rel") => hitobj::c06_relation(&args, &mut s),
         ("timing", "c06rel") => timing::c06_relation(&args, &mut s),
+        ("timing", "order") => timing::order_replay(&args, &mut s),
         ("events", "replay") => events::replay(&args, &mut s),
         ("events", "record") => events::record(&args, &mut s),
         ("curve", "replay") => curve::replay(&args, &mut s),
